@@ -2,6 +2,7 @@ package checks
 
 import (
 	"fmt"
+	"sort"
 
 	ucfg "github.com/elastic/go-ucfg"
 
@@ -17,6 +18,24 @@ func c05Mixed() *core.Space {
 		text string
 		in   interface{}
 		sep  bool
+		keys string // the settings the config has to have (sorted dotted paths)
+	}
+	want := func(prefix string, names []string, idxs []int, allUpTo bool) string {
+		var ks []string
+		if allUpTo {
+			for i := 0; i <= idxs[len(idxs)-1]; i++ {
+				ks = append(ks, fmt.Sprintf("%s.%d", prefix, i))
+			}
+		} else {
+			for _, i := range idxs {
+				ks = append(ks, fmt.Sprintf("%s.%d", prefix, i))
+			}
+		}
+		for _, n := range names {
+			ks = append(ks, prefix+"."+n)
+		}
+		sort.Strings(ks)
+		return fmt.Sprint(ks)
 	}
 	var cases []kase
 	nameSets := [][]string{{"name"}, {"name", "k"}}
@@ -55,13 +74,13 @@ func c05Mixed() *core.Space {
 				return out
 			}
 			cases = append(cases,
-				kase{fmt.Sprintf("{srv: %v}", m), M{"srv": m}, false},
-				kase{fmt.Sprintf("{a: {srv: %v}}", m), M{"a": M{"srv": m}}, false},
-				kase{fmt.Sprintf("{l: [%v]}", m), M{"l": L{m}}, false},
-				kase{fmt.Sprintf("%v with PathSep", dotted("srv")), dotted("srv"), true},
-				kase{fmt.Sprintf("%v with PathSep", dotted("a.srv")), dotted("a.srv"), true},
-				kase{fmt.Sprintf("%v with PathSep", listPlus("srv")), listPlus("srv"), true},
-				kase{fmt.Sprintf("{a: %v} with PathSep", listPlus("srv")), M{"a": listPlus("srv")}, true},
+				kase{fmt.Sprintf("{srv: %v}", m), M{"srv": m}, false, want("srv", names, idxs, false)},
+				kase{fmt.Sprintf("{a: {srv: %v}}", m), M{"a": M{"srv": m}}, false, want("a.srv", names, idxs, false)},
+				kase{fmt.Sprintf("{l: [%v]}", m), M{"l": L{m}}, false, want("l.0", names, idxs, false)},
+				kase{fmt.Sprintf("%v with PathSep", dotted("srv")), dotted("srv"), true, want("srv", names, idxs, false)},
+				kase{fmt.Sprintf("%v with PathSep", dotted("a.srv")), dotted("a.srv"), true, want("a.srv", names, idxs, false)},
+				kase{fmt.Sprintf("%v with PathSep", listPlus("srv")), listPlus("srv"), true, want("srv", names, idxs, true)},
+				kase{fmt.Sprintf("{a: %v} with PathSep", listPlus("srv")), M{"a": listPlus("srv")}, true, want("a.srv", names, idxs, true)},
 			)
 		}
 	}
@@ -87,7 +106,13 @@ func c05Mixed() *core.Space {
 					res.Viol = v
 					return
 				}
-				// every setting is still there
+				// every setting is there, and still there after a round trip
+				fk := c.FlattenedKeys(ucfg.PathSep("."))
+				sort.Strings(fk)
+				if fmt.Sprint(fk) != k.keys {
+					res = core.Fail("mixed", "MIXED-KEYS-LOST on the way in", fmt.Sprintf("settings %s, expected %s", fmt.Sprint(fk), k.keys))
+					return
+				}
 				keys := fmt.Sprint(c.FlattenedKeys(ucfg.PathSep(".")))
 				m, _ := unpackGeneric(c)
 				c2, _ := ucfg.NewFrom(m)
